@@ -291,6 +291,10 @@ def gen_venv_layout(root, outside, rng):
                 add(target, f"{base}/{pkgdir}/level3.py", nm + "_l3", tier)
                 target[f"{base}/{pkgdir}/helpers.py"] = rng.choice(["from .level2 import *\n", f'pytest_plugins = ["{pkgdir}.level2"]\n']) + target[f"{base}/{pkgdir}/helpers.py"]
                 target[f"{base}/{pkgdir}/level2.py"] = "from .level3 import *\n" + target[f"{base}/{pkgdir}/level2.py"]
+                if inside and rng.random() < 0.6:
+                    # diamond: an ordinary conftest reaches the middle of the plugin's import chain directly
+                    target[f"{base}/{pkgdir}/tests/conftest.py"] = "from ..level2 import *\n"
+                    target[f"{base}/{pkgdir}/tests/__init__.py"] = ""
         ver = "0.1"
         files[f"{sp}/{raw}-{ver}.dist-info/entry_points.txt"] = f"[pytest11]\ne{j} = {pkgdir}.plugin\n"
         files[f"{sp}/{raw}-{ver}.dist-info/direct_url.json"] = json.dumps({"url": "file://" + src_root, "dir_info": {"editable": True}})
